@@ -1,4 +1,5 @@
 import PydapModel.Dap4
+import PydapModel.Dap4Index
 import PydapModel.Dmr
 import PydapModel.Generated.Tables
 import PydapModel.Sexp
